@@ -106,12 +106,14 @@ const (
 	cInboxFolded
 	cFlagAccepted
 	cFlagRefused
+	cFlagMalformedCases
 	cFlagFolded
 	cFlag8bitAccepted
 	cAttrFoldedAsFlag
 	cNumSetRefused
 	cNumSetReprDiffers
 	cSearchRes
+	cDepthCapCases
 	cDepthErrors
 	cDepthDontCare
 	cTreeLiteralLeaf
@@ -121,11 +123,11 @@ const (
 var cntNames = [nCounters]string{
 	"strings_quoted_plain", "strings_quoted_with_escapes", "strings_quoted_8bit", "strings_quoted_invalid_utf8_under_QuotedUTF8",
 	"strings_literal_sync_client", "strings_literal_nonsync_client", "strings_literal_server",
-	"continuation_hook_calls", "hook_missing_refusals", "hook_missing_identical_bytes", "literals_streamed_through_reader",
+	"continuation_hook_calls", "hook_missing_cases_needing_sync_literal", "hook_missing_cases_not_needing_it", "literals_streamed_through_reader",
 	"mailbox_encoding_not_identity", "mailbox_inbox_folded",
-	"flags_accepted", "flags_refused", "flags_case_folded", "flags_8bit_accepted_dont_care", "attrs_folded_as_wellknown_flag",
-	"numsets_empty_refused", "numsets_representation_differs_same_set", "searchres_roundtrips",
-	"list_depth_cap_errors", "list_depth_dont_care", "trees_with_literal_leaf",
+	"flags_accepted", "flags_refused", "flags_malformed_cases", "flags_case_fold_cases", "flags_8bit_accepted_dont_care", "attrs_folded_as_wellknown_flag",
+	"numsets_empty_cases", "numsets_representation_differs_same_set", "searchres_cases",
+	"list_depth_cap_cases", "list_depth_cap_errors", "list_depth_dont_care", "trees_with_literal_leaf",
 }
 
 type wctx struct {
@@ -516,12 +518,14 @@ func checkString(x *wctx, s string, cd *caseDesc) {
 				if verbose {
 					fmt.Printf("  %-20s %s\n", stringReaders[ri], orOK(problem))
 				}
+				if ri == 3 && isLit {
+					x.cnt[cStreamedLiteral]++
+				}
 				if problem != "" {
 					violation("string:"+class+":"+fkey, stringDesc(s, cd), c, stringReaders[ri], problem, o.wire)
 					continue
 				}
 				if ri == 3 && isLit {
-					x.cnt[cStreamedLiteral]++
 					if want := c.C2S && sc.Form == formLitNonSync; x.nonSync != want {
 						violation("string:nonsync-flag", stringDesc(s, cd), c, stringReaders[ri], fmt.Sprintf("decoder reports nonSync=%v for wire form %s", x.nonSync, fkey), o.wire)
 					}
@@ -542,6 +546,11 @@ func checkString(x *wctx, s string, cd *caseDesc) {
 				if verbose {
 					fmt.Printf("config [%s]\n  encoder err=%v wire=%s\n", ch, oh.err, abbrev(oh.wire))
 				}
+				if needHook {
+					x.cnt[cHookMissingRefused]++
+				} else {
+					x.cnt[cHookMissingSameBytes]++
+				}
 				switch {
 				case oh.pan != nil:
 					violation("string:encoder-panic", stringDesc(s, cd), ch, "", fmt.Sprint(oh.pan), oh.wire)
@@ -550,13 +559,11 @@ func checkString(x *wctx, s string, cd *caseDesc) {
 				case needHook && len(oh.wire) != 0:
 					violation("string:hook-missing-bytes-on-wire", stringDesc(s, cd), ch, "", "encoder refused the value but bytes reached the writer", oh.wire)
 				case needHook:
-					x.cnt[cHookMissingRefused]++
+					// refused, nothing written
 				case oh.err != nil:
 					violation("string:hook-missing-spurious-error", stringDesc(s, cd), ch, "", "no synchronising literal is needed (with a hook the value went out as "+fkey+") but the encoder fails: "+oh.err.Error(), oh.wire)
 				case !bytes.Equal(oh.wire, x.ref):
 					violation("string:hook-missing-different-bytes", stringDesc(s, cd), ch, "", "bytes differ from the run with a hook: "+abbrev(x.ref), oh.wire)
-				default:
-					x.cnt[cHookMissingSameBytes]++
 				}
 			}
 		}
@@ -795,6 +802,15 @@ func checkFlag(x *wctx, f string, attr bool) {
 	}
 	for _, c := range cfgs {
 		x.eval(kind, 1)
+		if !rfcOK && !eight {
+			x.cnt[cFlagMalformedCases]++
+		}
+		if folded && rfcOK {
+			x.cnt[cFlagFolded]++
+			if viaFlag {
+				x.cnt[cAttrFoldedAsFlag]++
+			}
+		}
 		o := x.encode(c, func(e *imapwire.Encoder) {
 			if attr {
 				e.MailboxAttr(imap.MailboxAttr(f))
@@ -875,11 +891,7 @@ func checkFlag(x *wctx, f string, attr bool) {
 			run.Sample(kind, map[string]string{"input": vk.Q(f), "config": c.String(), "wire": abbrev(o.wire), "decoded": vk.Q(want)})
 		}
 		if folded {
-			x.cnt[cFlagFolded]++
 			run.Nontrivial(kind + ":" + f)
-			if viaFlag {
-				x.cnt[cAttrFoldedAsFlag]++
-			}
 		}
 	}
 }
@@ -1269,13 +1281,13 @@ func checkNumSet(x *wctx, idx int, flavour int) {
 			continue
 		}
 		if empty {
+			x.cnt[cNumSetRefused]++
 			switch {
 			case o.err == nil:
 				violation("numset:empty-set-emitted", cd, c, "", "the empty set has no wire form but CRLF() reports success", o.wire)
 			case len(o.wire) != 0:
 				violation("numset:refused-but-bytes-on-wire", cd, c, "", "encoder refused the value but bytes reached the writer", o.wire)
 			default:
-				x.cnt[cNumSetRefused]++
 				if c == cfgs[0] && flavour == 0 {
 					run.Sample("refusal", map[string]string{"input": fname + ": " + text, "config": c.String(), "encoder_error": o.err.Error(), "wire": abbrev(o.wire)})
 				}
@@ -1306,6 +1318,9 @@ func checkNumSet(x *wctx, idx int, flavour int) {
 			if ri > 0 {
 				x.eval("numset", 1)
 			}
+			if idx == -2 {
+				x.cnt[cSearchRes]++
+			}
 			problem, class := x.decodeCheck(c, o.wire, len(wantText), func(dec *imapwire.Decoder) string {
 				var got imap.NumSet
 				if ri == 0 {
@@ -1323,7 +1338,6 @@ func checkNumSet(x *wctx, idx int, flavour int) {
 					if !imap.IsSearchRes(got) {
 						return fmt.Sprintf("decoded value is not the SEARCHRES marker: %#v", got)
 					}
-					x.cnt[cSearchRes]++
 					return ""
 				}
 				var gr []rng
@@ -1579,7 +1593,7 @@ func checkTree(x *wctx, t *node, cd *caseDesc, expect int) {
 					continue
 				}
 				if c == cfgs[0] && w == 0 && (t == sampleTree || (cd.Kind == "chain" && cd.Param == 1000 && cd.Text == "quoted")) {
-					run.Sample(cd.Kind, map[string]string{"input": cd.Input + cd.Text, "config": c.String(), "writer": wn, "reader": rd, "wire": abbrev(o.wire), "outcome": orOK(problem)})
+					run.Sample(cd.Kind, map[string]string{"input": sampleInput(cd), "config": c.String(), "writer": wn, "reader": rd, "wire": abbrev(o.wire), "outcome": orOK(problem)})
 				}
 				switch expect {
 				case 1:
@@ -1587,6 +1601,7 @@ func checkTree(x *wctx, t *node, cd *caseDesc, expect int) {
 						violation("list:"+class, cd, c, rd, problem, o.wire)
 					}
 				case -1:
+					x.cnt[cDepthCapCases]++
 					if yieldedError {
 						x.cnt[cDepthErrors]++
 					} else if reportedOK {
@@ -1618,6 +1633,13 @@ func chainTree(depth int, leaf string) *node {
 }
 
 var sampleTree *node
+
+func sampleInput(cd *caseDesc) string {
+	if cd.Input != "" {
+		return cd.Input
+	}
+	return cd.Text
+}
 
 var chainLeaves = []string{"empty", "quoted", "literal"}
 
@@ -1889,8 +1911,12 @@ func main() {
 	// non-vacuity: every branch the check is about must have been exercised
 	for _, i := range []int{cQuotedPlain, cQuotedEscaped, cQuoted8bit, cLitSync, cLitNonSync, cLitServer, cHookCalls,
 		cHookMissingRefused, cHookMissingSameBytes, cStreamedLiteral, cMailboxNonIdentity, cInboxFolded, cFlagAccepted,
-		cFlagRefused, cFlagFolded, cNumSetRefused, cSearchRes, cDepthErrors, cTreeLiteralLeaf} {
+		cFlagMalformedCases, cFlagFolded, cNumSetRefused, cSearchRes, cDepthCapCases, cTreeLiteralLeaf} {
 		if cnt[i] == 0 {
+			if run.NumViolations() > 0 {
+				fmt.Printf("note: counter %s is 0 (violations reported below take precedence)\n", cntNames[i])
+				continue
+			}
 			run.EngineError("non-vacuity counter %s is 0", cntNames[i])
 		}
 	}
